@@ -19,9 +19,10 @@ from common import coq_list, coq_N
 IMPORTS = 'From XV Require Import Base History.'
 DEFS = '''Definition widenH (i e t : N) : list N :=
   if ((N.eqb e 1 || N.eqb e 6) && N.eqb t 1)%bool then [2%N] else if (N.eqb e 1 && N.eqb t 2)%bool then [3%N] else [].
-Definition W0H : list (N * N) := [(1, 5); (2, 5)]%N.
+Definition W0H : list (N * N) := [(1, 5); (2, 5); (3, 5)]%N.
+(* identity 3 is the XSD 1.1 reference <xs:unique ref="K"/> on R3: its duplicates are reported under the name K *)
 Definition dups (docs : list (list node)) : list (nat * nat) :=
-  map (fun c => (count_dups 1 [] c, count_dups 2 [] c)) (run_history widenH {| seen := []; marks := W0H |} docs).
+  map (fun c => (count_dups 1 [] c + count_dups 3 [] c, count_dups 2 [] c)) (run_history widenH {| seen := []; marks := W0H |} docs).
 '''
 XSI = 'http://www.w3.org/2001/XMLSchema-instance'
 ONS = 'urn:c10:other'
@@ -53,9 +54,10 @@ def schema_text(version):
   <xs:key name="NK"><xs:selector xpath="n"/><xs:field xpath="@lo"/></xs:key>
   <xs:keyref name="NR" refer="NK"><xs:selector xpath="n"/><xs:field xpath="@hi"/></xs:keyref></xs:element>
 <xs:element name="R2" type="RT"><xs:unique name="K2"><xs:selector xpath=".//item"/><xs:field xpath="."/></xs:unique></xs:element>
-</xs:schema>''' % ('<xs:assertion test="$value ne 4"/>' if v11 else '',
+%s</xs:schema>''' % ('<xs:assertion test="$value ne 4"/>' if v11 else '',
                    '<xs:attribute name="lang" type="xs:string" inheritable="true"/>' if v11 else '<xs:attribute name="lang" type="xs:string"/>',
-                   '<xs:assert test="not(@lo) or not(@hi) or @lo le @hi"/>' if v11 else '')
+                   '<xs:assert test="not(@lo) or not(@hi) or @lo le @hi"/>' if v11 else '',
+                   '<xs:element name="R3" type="RT"><xs:unique ref="K"/></xs:element>' if v11 else '')
 
 
 OTHER = ('<xs:schema xmlns:xs="http://www.w3.org/2001/XMLSchema" targetNamespace="%s" elementFormDefault="qualified">'
@@ -65,9 +67,9 @@ OTHER = ('<xs:schema xmlns:xs="http://www.w3.org/2001/XMLSchema" targetNamespace
 # ------------------------------------------------------------------ documents
 def gen_doc(rng):
     """returns {'xml', 'nodes'}; nodes = abstract pre-order node list for History.v (None for the other families)"""
-    root = rng.choice(['R', 'R', 'R', 'R2', 'a', 'a'])
+    root = rng.choice(['R', 'R', 'R', 'R2', 'R3', 'a', 'a'])
     ns = 'xmlns:xsi="%s" xmlns:o="%s"' % (XSI, ONS)
-    ident = {'R': 1, 'R2': 2}.get(root)
+    ident = {'R': 1, 'R2': 2, 'R3': 3}.get(root)
     enabled = [ident] if ident else []
     nodes = []
 
@@ -93,7 +95,7 @@ def gen_doc(rng):
         return '<a%s%s%s>%s</a>' % (' ' + ns if top else '', ' xsi:type="%s"' % t if t else '', attrs, body)
     if root == 'a':
         return {'xml': a_elem(top=True), 'nodes': nodes, 'root': root}
-    node(10 if root == 'R' else 11, None, False, 0)
+    node({'R': 10, 'R2': 11, 'R3': 12}[root], None, False, 0)
     body = ''
     for _ in range(rng.randint(0, 2)):
         v = rng.randint(1, 4)
@@ -350,7 +352,7 @@ def evaluate(ctx, cases):
         for p in o['probe']:
             ctx.violation(p, dict(rep, theorem='C10_scratch_history'), no_input=True)
         for (op, di, arg), got, exp in zip(c['history'], o['dup_counts'], m):
-            if got is None:
+            if got is None or (c['docs'][di]['root'] == 'R3' and c['version'] != '1.1'):
                 continue
             ctx.dist('model duplicate count', str(tuple(exp)))
             if list(exp) != got:
